@@ -185,6 +185,33 @@ func TestC15(t *testing.T) {
 					rep.Violate("C15 CAS blob served from the action cache", fmt.Sprintf("GET %s -> 200", acURL(inst, h)), nil)
 				}
 			}
+			// the hash of the EMPTY blob (always present in the CAS, never stored) as an action key:
+			// the CAS rule must not leak into the action-cache key spaces
+			{
+				rep.Eval()
+				cfgE := fmt.Sprintf("mode=%s mangling=%v http_validation=%v action key = SHA-256 of the empty blob", mode, mangle, validate)
+				head := f.httpDo(httptest.NewRequest(http.MethodHead, "/ac/"+emptySha, nil))
+				get := f.httpDo(httptest.NewRequest(http.MethodGet, "/ac/"+emptySha, nil))
+				g := f.c15Get("grpc", "", emptySha)
+				if head.Code != 404 || get.Code != 404 || g != -1 {
+					rep.Violate("C15 empty-blob hash: never-stored action key reported present", fmt.Sprintf("%s: before any upload HEAD=%d GET=%d gRPC=%d", cfgE, head.Code, get.Code, g), nil)
+				}
+				if !f.c15Put("http", "", emptySha, 7777) {
+					rep.Violate("C15 empty-blob hash: upload refused", cfgE, nil)
+				}
+				head = f.httpDo(httptest.NewRequest(http.MethodHead, "/ac/"+emptySha, nil))
+				get = f.httpDo(httptest.NewRequest(http.MethodGet, "/ac/"+emptySha, nil))
+				if head.Code != 200 || get.Code != 200 || (head.Header().Get("Content-Length") != "" && head.Header().Get("Content-Length") != fmt.Sprint(get.Body.Len())) {
+					rep.Violate("C15 empty-blob hash: stored action result not reported as stored", fmt.Sprintf("%s: after the upload HEAD=%d (Content-Length %q) GET=%d (%d bytes)", cfgE, head.Code, head.Header().Get("Content-Length"), get.Code, get.Body.Len()), nil)
+				}
+				if got := f.c15Get("http", "", emptySha); got != 7777 {
+					rep.Violate("C15 empty-blob hash: stored action result not returned", fmt.Sprintf("%s: %d", cfgE, got), nil)
+				}
+				if rec := f.httpDo(httptest.NewRequest(http.MethodGet, "/cas/"+emptySha, nil)); rec.Code != 200 || rec.Body.Len() != 0 {
+					rep.Violate("C15 empty-blob hash: CAS empty blob disturbed", fmt.Sprintf("%s: GET /cas -> %d, %d bytes", cfgE, rec.Code, rec.Body.Len()), nil)
+				}
+				rep.Nontrivial("emptysha" + cfgE)
+			}
 			// one hash used as CAS digest, as validated and as raw action key at once (an
 			// action key IS the digest of the Action message in the CAS): every space keeps its own value
 			for ci, order := range []string{"cas,grpc,http", "http,grpc,cas", "grpc,cas,http", "cas,http", "http,cas", "grpc,cas"} {
